@@ -141,7 +141,7 @@ def run_validate_confirm(w, fam, lines, label, v, counts, sigfn, peers=False):
             wire_where[i] = {"events_explained": max(0, l - 1), "first_unexplained": (ev[l - 1] if 0 < l <= len(ev) else "end of session / final tree"),
                              "parse_error": rows2[i]["parse_err"]}
         rej2 = set(rej2) | set(wrej2)
-        vlib_unreproduced(v, rej, rej2)
+        vlib_unreproduced(v, rej, rej2, total=len(obs))
         for o in obs2:
             if o["id"] in rej2:
                 sg = sigfn(o)
